@@ -255,7 +255,19 @@ def one_case(ctx, kw, info, rep, count=True):
         ctx.report("MinErrorFlow raised " + repr(e), rep); return None
     e1_compare(ctx, m, caps, rep)
     if not ok:
-        ctx.report(f"MinErrorFlow not solved (status {m.solve_statistics.get('milp_solver_status')}); the zero flow is always feasible", rep)
+        st = m.solve_statistics.get('milp_solver_status')
+        if st == "kInfeasible":
+            # is the model infeasible, or did the solver's presolve answer wrongly?  (HiGHS 1.15.1 reports some feasible
+            # few-values models infeasible; with presolve off the same model is solved.)  The latter violates the solver
+            # specification every property is stated relative to; it is counted, not blamed on flowpaths.
+            try:
+                again = lpdump.infeasible_without_presolve(m.solver)
+            except Exception as e:
+                again = f"recheck failed: {e!r}"
+            if again == "Optimal":
+                ctx.count("solver_specification", "kInfeasible_from_presolve_on_a_feasible_model"); return m
+            rep = dict(rep, status_without_presolve=again)
+        ctx.report(f"MinErrorFlow not solved (status {st}); the zero flow is always feasible", rep)
         return m
     if len(caps) == 2 and m._solution is not None:
         x2 = m.solver.get_values(m.edge_vars)
